@@ -178,6 +178,7 @@ Proof.
   { rewrite secs_stream_app, secs_stream_of. cbn [secs_stream s1 s2 c_old c_dels c_new c_adds].
     repeat (first [rewrite <- app_assoc | progress cbn [app] | rewrite app_nil_r]). reflexivity. }
   rewrite Hstream in Hch.
+  assert (Hq0 : quiet z0) by exact (zeq_zone_of_quiet _ _ Hv0 Hz).
   apply (ixfr_sections_rejected fin _ tail z0 (v_serial v0) ws Hsk2); try assumption.
   intros E. apply (Hser v0 (or_introl eq_refl)). symmetry. exact E.
 Qed.
